@@ -22,7 +22,7 @@ ENUM = {
     # coverage guard runs on the small sub-universe "cov" (contained in both tiers: an action taken there is taken in them)
     "thorough": [dict(module="MC_RangeDim", cfg="MC_RangeDim_thorough.cfg", workers=16),
                  dict(module="MC_RangeDim", cfg="MC_RangeDim_cov.cfg", workers=4, coverage=True, expect_cases=False,
-                      may_be_unused=["Fast"])   # Fast = the seeded step-attribute lookup, only enabled in spec/history],
+                      may_be_unused=["Fast"])],   # Fast = the seeded step-attribute lookup, only enabled in spec/history
 }
 PROOFS = ["proofs/P_RangeDim.tla"]    # thorough tier: bracket uniqueness, right-bound-minus-one, whole count, trim law for all integers (tlapm)
 POOL = 12
